@@ -1,0 +1,12 @@
+//go:build verif
+
+package decode
+
+// Verification hooks, compiled only with the build tag "verif". Add-only:
+// thin wrappers over the unexported number decoders. Each returns the value
+// and the number of bytes consumed (0 when the number is cut short).
+
+func VerifDecodeNatural(b []byte) (uint32, int)     { return buffer(b).decodeNatural() }
+func VerifDecodeReal(b []byte) (float32, int)       { return buffer(b).decodeReal() }
+func VerifDecodeCoordinate(b []byte) (float32, int) { return buffer(b).decodeCoordinate() }
+func VerifDecodeZeroToOne(b []byte) (float32, int)  { return buffer(b).decodeZeroToOne() }
